@@ -1,12 +1,77 @@
 import Rare.Base.Proto
 import Rare.Model.C01
+import Rare.Model.PipelineTrace
 namespace Rare.Drv.C01
 open Rare Rare.C01 Rare.Proto Rare.Pipeline
 
 def renderLine (l : Line) : String := s!"{l.src}:{l.num}:{Hex.enc l.text}:{Hex.enc (harnessGroup1 l.text)}"
 
+/-! ### Trace cases (`ptrace <blob>`, blob = cfg/inputs/summary/trace; see harness/corr/c01trace.go) -/
+
+open Rare.TraceOrder in
+def parseEv (s : String) : Option Ev :=
+  match s.splitOn "." with
+  | [g, k, src, a, b] => do
+    let g ← g.toNat?
+    let a ← a.toNat?
+    let b ← b.toNat?
+    if k = "sa" then
+      let key ← Hex.dec src
+      pure ⟨g, k, noSrc, a, b, key⟩
+    else if src = "x" then pure ⟨g, k, noSrc, a, b, []⟩
+    else do
+      let i ← src.toNat?
+      pure ⟨g, k, i, a, b, []⟩
+  | _ => none
+
+def parseTrace (s : String) : Option (List TraceOrder.Ev) :=
+  if s = "." then some [] else (s.splitOn "_").mapM parseEv
+
+def parseInputs (s : String) : Option (List Bytes) :=
+  if s = "." then some [] else (s.splitOn "_").mapM Hex.dec
+
+/-- cfg = mode.batch.workers.readers.buffer.flushms.missing.procs.delay.script -/
+def parseCfg (s : String) (inputs : List Bytes) (agg : Bool) : Option PipelineTrace.Cfg :=
+  match s.splitOn "." with
+  | mode :: batch :: w :: r :: b :: flush :: _ => do
+    let batch ← batch.toNat?
+    let w ← w.toNat?
+    let r ← r.toNat?
+    let b ← b.toNat?
+    let _ ← flush.toNat?
+    -- a reader source always runs the timed batching loop (250ms, or the harness' short timeout)
+    pure { files := mode = "f", batch := batch, W := w, R := if mode = "f" then r else 1, B := b, timed := mode ≠ "f",
+           inputs := inputs, agg := agg }
+  | _ => none
+
+def showEv (e : TraceOrder.Ev) : String :=
+  s!"{e.g}.{e.kind}.{if e.src = TraceOrder.noSrc then "x" else toString e.src}.{e.a}.{e.b}"
+
+structure PipeOutcome where
+  answer : String
+  consumed : List Line := []
+
+/-- Run the pipeline trace check on the pipeline's share of a log. -/
+def pipeTrace (cfg : PipelineTrace.Cfg) (evs : List TraceOrder.Ev) : PipeOutcome :=
+  let kinds := PipelineTrace.pipeKinds cfg.agg
+  let evs := evs.filter fun e => kinds.contains e.kind
+  match PipelineTrace.batchesOf cfg evs with
+  | none => { answer := "rejected batches: the logged flushes are not the batches of the batching-loop model" }
+  | some batches =>
+    let wg := PipelineTrace.workerGs evs
+    if wg.length ≠ cfg.W then { answer := s!"rejected workers: {wg.length} worker goroutines logged, {cfg.W} configured" } else
+    let tr := evs.toArray
+    match TraceOrder.verdict (PipelineTrace.machine cfg wg) (PipelineTrace.lin wg evs) (PipelineTrace.initSt cfg batches) tr with
+    | .accepted ps _ =>
+      let s := ps.lts
+      { answer := s!"ok accepted final={s.nRead}.{s.nMatched}.{s.nIgnored}.{s.consumed.length}.{ps.errs}", consumed := s.consumed }
+    | .rejected deepest stuck exhausted =>
+      let st := " ".intercalate (stuck.map fun p => s!"{p}:{showEv (TraceOrder.evAt tr p)}")
+      { answer := s!"rejected after={deepest}/{tr.size} exhaustive={exhausted} frontier={st}" }
+
 /-- `pipe <inputs hexlist>`: the reference outcome (independent of batch/worker/reader/buffer settings,
-    chunking and schedule – that independence is the theorem). -/
+    chunking and schedule – that independence is the theorem).
+    `ptrace <blob>`: trace inclusion of a real run's event log. -/
 def handle : List String → String
   | "pipe" :: ins :: _ =>
     match decHexList ins with
@@ -17,6 +82,16 @@ def handle : List String → String
       let body := if ms.isEmpty then "." else ",".intercalate (ms.map renderLine)
       s!"ok read={t.read} matched={t.matched} ignored={t.ignored} inorder=1 matches={body}"
     | none => "bad-args"
+  | "ptrace" :: blob :: _ =>
+    match blob.splitOn "/" with
+    | [cfg, ins, _, trace] =>
+      match parseInputs ins with
+      | none => "bad-args inputs"
+      | some inputs =>
+        match parseCfg cfg inputs false, parseTrace trace with
+        | some cfg, some evs => (pipeTrace cfg evs).answer
+        | _, _ => "bad-args cfg/trace"
+    | _ => "bad-args blob"
   | _ => "bad-op"
 
 end Rare.Drv.C01
